@@ -187,8 +187,21 @@ class World:
         return self.loop.run_until_complete(guarded())
 
     def settle(self, dt=0.0):
-        """let queued callbacks run; optionally let dt virtual seconds pass"""
+        """let dt virtual seconds pass, then run until nothing is runnable at the current instant"""
         self.loop.run_until_complete(asyncio.sleep(dt))
+        self.quiesce()
+
+    def quiesce(self):
+        """run the loop (without advancing virtual time) until no callback is ready, no thread job
+        is outstanding and no timer is due now: background work triggered at this instant (a
+        management task's poll, say) is finished before the harness does anything else"""
+        lp = self.loop
+        for _ in range(100000):
+            lp.run_until_complete(asyncio.sleep(0))
+            due = any((not h._cancelled) and h._when <= lp._vtime + 1e-6 for h in lp._scheduled)
+            if lp._outstanding == 0 and not lp._ready and not due:
+                return
+        raise RuntimeError("quiesce: loop never became quiet")
 
     def start(self):
         from asimap.user_server import IMAPUserServer
@@ -259,7 +272,9 @@ class World:
         """run one complete command (text incl. literal data, no trailing CRLF needed) on a session.
         Returns the bytes pushed to that session, in order.  Parse errors are answered the way
         IMAPClientProxy.run does (BAD with the tag if one was parsed)."""
-        return self.run(self.acmd(name, line))
+        r = self.run(self.acmd(name, line))
+        self.quiesce()
+        return r + self.proxy(name).take()
 
     async def acmd(self, name: str, line) -> list[bytes]:
         from asimap.parse import BadCommand, IMAPClientCommand
